@@ -178,6 +178,11 @@ def firstType (U : Universe) (d : Disk) (k : Key) : List Nat → Option Tid
 def labCachedTasks (U : Universe) (d : Disk) (types : List Nat) : List Tid :=
   (sFindKeys U d).filterMap (fun k => firstType U d k types)
 
+/-- the `result_meta` (start, duration) that `load_task` / `cached_tasks` attaches to a listed task:
+    `build_result_meta` of the `metadata.json` under the task's key -/
+def cachedTaskMeta (U : Universe) (d : Disk) (t : Tid) : Option (Nat × Nat) :=
+  (lookup (keyOf U t) d).map (fun e => (e.start, e.dur))
+
 /-! ### run_tasks as the cache sees it -/
 def lookupV (t : Tid) : List (Tid × Option Val) → Option (Option Val)
   | [] => none
@@ -190,11 +195,12 @@ def neededFrom (U : Universe) (uc : Tid → Bool) (req : List Tid) : List Tid :=
   (List.range U.n).reverse.foldl
     (fun acc t => if req.contains t || acc.any (fun p => !uc p && (U.deps p).contains t) then t :: acc else acc) []
 
-/-- `run()` of `t` in run `g` given the results in memory: fails if it raises itself or a
-    dependency result is unavailable -/
-def runTask (U : Universe) (g : Nat) (vals : List (Tid × Option Val)) (t : Tid) : Option Val :=
+/-- `run()` of `t` in run `g` given the results in memory: fails if it raises itself (always:
+    `U.fails`; or in this run: `fl`, decided by the Lab context, which is not part of the cache key)
+    or a dependency result is unavailable -/
+def runTask (U : Universe) (g : Nat) (fl : List Tid) (vals : List (Tid × Option Val)) (t : Tid) : Option Val :=
   let ds := (U.deps t).map (fun d => (lookupV d vals).getD none)
-  if U.fails t || ds.any Option.isNone then none else some (U.value t g (ds.map (fun o => o.getD 0)))
+  if U.fails t || fl.contains t || ds.any Option.isNone then none else some (U.value t g (ds.map (fun o => o.getD 0)))
 
 /-- the `ResultMeta` recorded by run `g` for task `t` (stands for `datetime.now()` / the duration) -/
 def metaStart (g : Nat) (_t : Tid) : Nat := g
@@ -207,20 +213,20 @@ structure Acc where
   loaded : List (Tid × Stored) := []      -- served from the cache, with the meta that was set
 
 /-- `run_or_load_task` for one planned task -/
-def stepC (U : Universe) (bust : Bool) (g : Nat) (a : Acc) (t : Tid) : Acc :=
+def stepC (U : Universe) (bust : Bool) (g : Nat) (fl : List Tid) (a : Acc) (t : Tid) : Acc :=
   if !bust && labIsCached U a.disk t then
     match cLoad U a.disk t with
     | some s => { a with vals := (t, some s.val) :: a.vals, loaded := (t, s) :: a.loaded }
     | none => { a with vals := (t, none) :: a.vals }
   else
-    match runTask U g a.vals t with
+    match runTask U g fl a.vals t with
     | some v => { a with disk := cSave U a.disk t { val := v, start := metaStart g t, dur := metaDur g t },
                          vals := (t, some v) :: a.vals, execd := t :: a.execd }
     | none => { a with vals := (t, none) :: a.vals, execd := t :: a.execd }
 
-def labRun (U : Universe) (bust : Bool) (g : Nat) (req : List Tid) (d : Disk) : Acc :=
+def labRun (U : Universe) (bust : Bool) (g : Nat) (fl : List Tid) (req : List Tid) (d : Disk) : Acc :=
   let uc := fun t => !bust && labIsCached U d t
-  (neededFrom U uc req).foldl (stepC U bust g) { disk := d }
+  (neededFrom U uc req).foldl (stepC U bust g fl) { disk := d }
 
 /-- the dict returned by `run_tasks` (request order, failed tasks absent) -/
 def returned (req : List Tid) (a : Acc) : List (Tid × Val) :=
@@ -243,20 +249,20 @@ structure AAcc where
   execd : List Tid := []
   loaded : List (Tid × Stored) := []
 
-def stepA (U : Universe) (bust : Bool) (g : Nat) (a : AAcc) (t : Tid) : AAcc :=
+def stepA (U : Universe) (bust : Bool) (g : Nat) (fl : List Tid) (a : AAcc) (t : Tid) : AAcc :=
   match (if bust then none else a.map t) with
   | some s => { a with vals := (t, some s.val) :: a.vals, loaded := (t, s) :: a.loaded }
   | none =>
-    match runTask U g a.vals t with
+    match runTask U g fl a.vals t with
     | some v => { a with map := if persists U t
                                 then aUpdate a.map t { val := v, start := metaStart g t, dur := metaDur g t }
                                 else a.map,
                          vals := (t, some v) :: a.vals, execd := t :: a.execd }
     | none => { a with vals := (t, none) :: a.vals, execd := t :: a.execd }
 
-def specRun (U : Universe) (bust : Bool) (g : Nat) (req : List Tid) (m : AMap) : AAcc :=
+def specRun (U : Universe) (bust : Bool) (g : Nat) (fl : List Tid) (req : List Tid) (m : AMap) : AAcc :=
   let uc := fun t => !bust && (m t).isSome
-  (neededFrom U uc req).foldl (stepA U bust g) { map := m }
+  (neededFrom U uc req).foldl (stepA U bust g fl) { map := m }
 
 def specUncache (m : AMap) (ts : List Tid) : AMap := fun x => if ts.contains x then none else m x
 
@@ -269,7 +275,7 @@ def abs (U : Universe) (d : Disk) : AMap := fun t => cLoad U d t
 
 /-! ## histories -/
 inductive Op
-  | run (bust : Bool) (g : Nat) (req : List Tid)
+  | run (bust : Bool) (g : Nat) (req : List Tid) (fl : List Tid)
   | uncache (ts : List Tid)
   | isCached (t : Tid)
   | cachedTasks (types : List Nat)
@@ -283,7 +289,7 @@ inductive Out
   deriving DecidableEq, Repr
 
 def opC (U : Universe) (d : Disk) : Op → Disk × Out
-  | .run bust g req => let a := labRun U bust g req d; (a.disk, .ran (returned req a) a.execd a.loaded)
+  | .run bust g req fl => let a := labRun U bust g fl req d; (a.disk, .ran (returned req a) a.execd a.loaded)
   | .uncache ts => (labUncache U d ts, .unit)
   | .isCached t => (d, .bool (labIsCached U d t))
   | .cachedTasks types => (d, .tasks (labCachedTasks U d types))
@@ -294,7 +300,7 @@ def returnedA (req : List Tid) (a : AAcc) : List (Tid × Val) :=
     | _ => none)
 
 def opA (U : Universe) (m : AMap) : Op → AMap × Out
-  | .run bust g req => let a := specRun U bust g req m; (a.map, .ran (returnedA req a) a.execd a.loaded)
+  | .run bust g req fl => let a := specRun U bust g fl req m; (a.map, .ran (returnedA req a) a.execd a.loaded)
   | .uncache ts => (specUncache m ts, .unit)
   | .isCached t => (m, .bool (m t).isSome)
   | .cachedTasks types => (m, .tasks (specCachedTasks U m types))
